@@ -26,6 +26,7 @@ type Clause struct {
 	Info  *types.Info
 	Pos   token.Pos
 	Line  string // file:line of the contract text
+	Uses  []int  // invariants: the other invariants kept as hypotheses when proving preservation (nil: all)
 }
 
 type LoopContract struct {
@@ -383,7 +384,7 @@ func (w *World) loopsOf(fn *ssa.Function) *fnLoops {
 		if len(structured) == len(astLoops) {
 			for i, li := range structured {
 				li.bodyPos = astLoops[i]
-				if astKeys[i] != nil && strings.HasPrefix(li.header.Comment, "rangeindex") {
+				if strings.HasPrefix(li.header.Comment, "rangeindex") {
 					// the hidden index cell is the first cell loaded in the header
 					for _, in := range li.header.Instrs {
 						if u, ok := in.(*ssa.UnOp); ok && u.Op == token.MUL {
@@ -710,10 +711,31 @@ func (w *World) elaborate(c *Contract) error {
 		}
 		switch rc.kw {
 		case "requires", "ensures", "invariant", "decreases":
-			cl, err := mk(rc.text)
+			text := rc.text
+			var uses []int
+			if rc.kw == "invariant" && strings.HasPrefix(text, "uses(") {
+				// invariant uses(1,2,5): expr
+				j := strings.Index(text, "):")
+				if j < 0 {
+					return fmt.Errorf("%s: expected `uses(i,j,...): expr`", rc.line)
+				}
+				for _, f := range strings.Split(text[5:j], ",") {
+					n, err := strconv.Atoi(strings.TrimSpace(f))
+					if err != nil {
+						return fmt.Errorf("%s: bad uses list", rc.line)
+					}
+					uses = append(uses, n)
+				}
+				if uses == nil {
+					uses = []int{}
+				}
+				text = strings.TrimSpace(text[j+2:])
+			}
+			cl, err := mk(text)
 			if err != nil {
 				return err
 			}
+			cl.Uses = uses
 			switch rc.kw {
 			case "requires":
 				c.Requires = append(c.Requires, cl)
@@ -869,6 +891,11 @@ func desugar(text string, fn *ssa.Function, pkg *types.Package) (string, error) 
 		if strings.HasPrefix(s[i:], "old(") && (i == 0 || !isIdentChar(s[i-1]) && s[i-1] != '.') {
 			b.WriteString("verif_old(")
 			i += 4
+			continue
+		}
+		if strings.HasPrefix(s[i:], "rangeidx") && (i == 0 || !isIdentChar(s[i-1]) && s[i-1] != '.') && (i+8 == len(s) || !isIdentChar(s[i+8])) {
+			b.WriteString("verif_rangeidx()")
+			i += 8
 			continue
 		}
 		if strings.HasPrefix(s[i:], "result") && (i == 0 || !isIdentChar(s[i-1]) && s[i-1] != '.') {
